@@ -592,6 +592,41 @@ pub broadcast proof fn axiom_str_uint_roundtrip(a: int)
     ensures #[trigger] str_uint(uint_str(a)) == Some(a),
 {}
 
+// decimal rendering of a natural number is a non-empty digit string (so it never starts with the sign character and its first character is one byte)
+#[verifier::external_body]
+pub proof fn axiom_uint_str_shape(a: int)
+    requires a >= 0,
+    ensures uint_str(a).len() >= 1, '0' <= uint_str(a)[0] <= '9',
+{}
+// a `str` is determined by its characters (assumption about core: `str` equality is equality of the UTF-8 contents)
+#[verifier::external_body]
+pub proof fn axiom_str_ext()
+    ensures forall|a: &str, b: &str| #![trigger a@, b@] a@ == b@ ==> a == b,
+{}
+// ---------- byte slicing / parsing of `str` used by Integer::from_str (T6: std string primitives) ----------
+pub open spec fn is_one_byte(c: char) -> bool { (c as u32) < 128 }
+// `&s[..1]`: byte slicing; it returns (does not abort) only when byte offset 1 is a character boundary, i.e. the first character is one byte
+#[verifier::external_body]
+pub fn str_first_byte(s: &str) -> (r: &str)
+    requires UINT_OPS_TOTAL() ==> s@.len() >= 1 && is_one_byte(s@[0]),
+    ensures s@.len() >= 1, is_one_byte(s@[0]), r@ == s@.subrange(0, 1),
+{ unimplemented!() }
+// `&s[1..]`
+#[verifier::external_body]
+pub fn str_after_first_byte(s: &str) -> (r: &str)
+    requires UINT_OPS_TOTAL() ==> s@.len() >= 1 && is_one_byte(s@[0]),
+    ensures s@.len() >= 1, is_one_byte(s@[0]), r@ == s@.subrange(1, s@.len() as int),
+{ unimplemented!() }
+pub open spec fn parse_u128_spec(s: Seq<char>) -> Option<int> {
+    if str_uint(s) is Some && str_uint(s)->Some_0 <= U128_MAX { str_uint(s) } else { None }
+}
+pub struct ParseIntError {}
+// `s.parse::<u128>()` (core::num): the same decimal reading as Uint128::from_str above
+#[verifier::external_body]
+pub fn str_parse_u128(s: &str) -> (r: Result<u128, ParseIntError>)
+    ensures r is Ok <==> parse_u128_spec(s@) is Some, r is Ok ==> r->Ok_0 as int == parse_u128_spec(s@)->Some_0,
+{ unimplemented!() }
+
 // ---------- Into<Uint128> (used by Integer::new_positive / new_negative) ----------
 pub closed spec fn into_u128<T: Into<Uint128>>(v: T) -> Uint128 { <T as IntoSpec<Uint128>>::into_spec(v) }
 pub closed spec fn into_u128_ok<T: Into<Uint128>>(v: T) -> bool { <T as IntoSpec<Uint128>>::obeys_into_spec() }
